@@ -9,7 +9,10 @@
 //     of that loop iteration), h / H (the driver takes one / every queued block), t (ONE detectReorgInTrackedList, called
 //     through the hook VerifTick; Start is the real one with a one-hour ticker), r (stop + start: new detector on the same DB file, new
 //     driver, new downloader; Start then Subscribe), m (stop inside handleNewBlock between AddBlockToTrack and ProcessBlock,
-//     then start). The downloader's block-tag queries wait at a gate until the script grants them; a tap between the real
+//     then start), n (ONE tick during which the node is KILLED while the subscriber is being notified of a reorg: the
+//     driver has received the block number and is about to call processor.Reorg, the detector waits for ReorgProcessed;
+//     the blocked goroutines are abandoned as a kill would, the DB handle is closed, and the node is started again on the
+//     same DB file). The downloader's block-tag queries wait at a gate until the script grants them; a tap between the real
 //     Download and the real driver holds the sent blocks until the script lets the driver take them. Nothing depends on
 //     wall time; every goroutine hand-over (ReorgedBlock / ReorgProcessed, cancel, goto reset) is the real one, only
 //     serialised. One exception is absorbed, not hidden: reorg_event has PRIMARY KEY (detected_at [seconds], subscriber,
@@ -72,7 +75,7 @@ type WorldIn struct {
 }
 
 type EvIn struct {
-	Op    string `json:"op"` // w p h H t r m x
+	Op    string `json:"op"` // w p h H t r m n x
 	V     int    `json:"v"`
 	Head  uint64 `json:"head"`
 	Fin   uint64 `json:"fin"`
@@ -120,6 +123,7 @@ type Out struct {
 	Trace     [][4]uint64 `json:"trace"` // lock: after every event (len store, last processed, len tracked memory, queued blocks)
 	Done      bool        `json:"done"`
 	PKRetries int         `json:"pk_retries"`
+	Kills     int         `json:"kills"` // op n: times the node was actually killed inside a reorg hand-over
 	Note      string      `json:"note,omitempty"`
 }
 
@@ -438,6 +442,7 @@ type recProc struct {
 	hangNext  bool
 	hanging   chan struct{}
 	onReorg   func() // witness op x: called inside Reorg, i.e. while the detector waits for ReorgProcessed
+	killReorg chan struct{} // op n: the next Reorg call signals here and never returns (the node is being killed)
 }
 
 func (p *recProc) GetLastProcessedBlock(ctx context.Context) (uint64, error) {
@@ -470,6 +475,12 @@ func (p *recProc) ProcessBlock(ctx context.Context, b aggsync.Block) error {
 }
 func (p *recProc) Reorg(ctx context.Context, first uint64) error {
 	p.mu.Lock()
+	if ch := p.killReorg; ch != nil {
+		p.killReorg = nil
+		p.mu.Unlock()
+		close(ch)
+		select {} // killed before processor.Reorg did anything; this goroutine belongs to the dead incarnation
+	}
 	defer p.mu.Unlock()
 	if p.onReorg != nil {
 		p.onReorg()
@@ -905,6 +916,70 @@ func (r *runner) raceTick(polls int) error {
 	return nil
 }
 
+// kill: the incarnation dies with goroutines blocked (driver inside processor.Reorg, detector inside notifySubscriber);
+// they are abandoned, the download is cancelled, the DB handle is closed
+func (r *runner) kill() error {
+	n := r.n
+	n.cancel()
+	if n.tp != nil {
+		n.tp.mu.Lock()
+		all := append([]*session(nil), n.tp.all...)
+		n.tp.mu.Unlock()
+		for _, s := range all {
+			select {
+			case <-s.done:
+			case <-time.After(stepTimeout):
+				return r.fail("timeout: a Download goroutine did not stop after the kill")
+			}
+		}
+	}
+	r.n = nil
+	return n.rd.VerifClose()
+}
+
+// crashNotify (op n): one tick; if it notifies a reorg the node is killed before processor.Reorg runs, otherwise the
+// tick completes and the node is stopped normally; then a start
+func (r *runner) crashNotify(ferr bool, errAt int) error {
+	for attempt := 0; ; attempt++ {
+		entered := make(chan struct{})
+		r.proc.mu.Lock()
+		r.proc.killReorg = entered
+		r.proc.mu.Unlock()
+		r.rdc.arm(ferr, errAt)
+		done := make(chan error, 1)
+		n := r.n
+		go func() { done <- n.rd.VerifTick(n.ctx) }()
+		select {
+		case <-entered:
+			r.out.Kills++
+			if err := r.kill(); err != nil {
+				return err
+			}
+			return r.start()
+		case err := <-done:
+			r.proc.mu.Lock()
+			r.proc.killReorg = nil
+			r.proc.mu.Unlock()
+			if err != nil && strings.Contains(err.Error(), "failed to insert reorg event") && attempt < 3 {
+				r.out.PKRetries++
+				now := time.Now()
+				time.Sleep(now.Truncate(time.Second).Add(time.Second + 15*time.Millisecond).Sub(now))
+				errAt = 0
+				continue
+			}
+			if !waitFor(r.parked, stepTimeout) {
+				return r.fail("timeout: no downloader waiting after the tick")
+			}
+			if err := r.stop(); err != nil {
+				return err
+			}
+			return r.start()
+		case <-time.After(stepTimeout):
+			return r.fail("timeout: tick neither finished nor notified")
+		}
+	}
+}
+
 func (r *runner) snapshot() error {
 	nums, hashes, _ := r.n.rd.VerifTracked(subscriberID)
 	r.out.Mem = [][2]uint64{}
@@ -960,6 +1035,8 @@ func (r *runner) runLock() error {
 			if err = r.stop(); err == nil {
 				err = r.start()
 			}
+		case "n":
+			err = r.crashNotify(e.Err, e.ErrAt)
 		case "x":
 			err = r.raceTick(int(e.Head))
 		case "m":
@@ -1169,7 +1246,7 @@ func genLock(rng *hlib.Rng, o lockOpts) In {
 	if o.small {
 		steps = 10 + rng.Intn(20)
 	}
-	nfork, nrestart, nmid, nback := 0, 0, 0, 0
+	nfork, nrestart, nmid, nback, nnotify := 0, 0, 0, 0, 0
 	var script []EvIn
 	emitW := func() {
 		script = append(script, EvIn{Op: "w", V: cur, Head: head, Fin: fin})
@@ -1247,6 +1324,17 @@ func genLock(rng *hlib.Rng, o lockOpts) In {
 				if o.mid && rng.Intn(3) == 0 {
 					script = append(script, EvIn{Op: "m"})
 					nmid++
+				} else if rng.Intn(3) == 0 { // stopped while a reorg is being handed over (if the tick finds one)
+					if head > final && rng.Intn(3) != 0 {
+						// make it likely that there is one: everything queued is processed, then a fork right above the
+						// finalized block
+						script = append(script, EvIn{Op: "H"})
+						cur = g.fork(cur, final+1, head, density)
+						nfork++
+						emitW()
+					}
+					script = append(script, EvIn{Op: "n"})
+					nnotify++
 				} else {
 					script = append(script, EvIn{Op: "r"})
 					nrestart++
@@ -1276,7 +1364,7 @@ func genLock(rng *hlib.Rng, o lockOpts) In {
 	in.Script = script
 	in.Versions = g.versions
 	in.Quiet = true
-	in.Tag = fmt.Sprintf("forks=%d back=%d restarts=%d mid=%d", nfork, nback, nrestart, nmid)
+	in.Tag = fmt.Sprintf("forks=%d back=%d restarts=%d mid=%d notify=%d", nfork, nback, nrestart, nmid, nnotify)
 	return in
 }
 
@@ -1389,6 +1477,12 @@ func boundary() []In {
 	add("b:mid-redeliver", []EvIn{p, p, {Op: "h"}, {Op: "m"}, {Op: "w", V: 1, Head: 6, Fin: 2}, p, p, H, t}, 6, 1)
 	// 10. the same, then stop + start: loadTrackedHeaders must let the later row win
 	add("b:mid-redeliver-restart", []EvIn{p, p, {Op: "h"}, {Op: "m"}, {Op: "w", V: 1, Head: 6, Fin: 2}, p, p, H, {Op: "r"}, t, p}, 6, 1)
+	// 11. the node is killed while the reorg of processed blocks 3, 4, 6 is being handed over (mismatch found, subscriber
+	//     notified, processor.Reorg not run); after the start the same reorg must be detected again
+	add("b:crash-during-notify", []EvIn{p, p, H, {Op: "w", V: 1, Head: 6, Fin: 2}, {Op: "n"}, p, t, p, p, H}, 6, 1)
+	// 12. the same kill, but the node is back on chain A when it starts again: nothing processed is replaced any more,
+	//     the store was never rewound, and no rewind may follow
+	add("b:crash-during-notify-fork-undone", []EvIn{p, p, H, {Op: "w", V: 1, Head: 6, Fin: 2}, {Op: "n"}, {Op: "w", V: 0, Head: 7, Fin: 2}, p, t, p, p, H}, 7, 0)
 	return ins
 }
 
